@@ -29,7 +29,8 @@ type regCase struct {
 type regStep struct {
 	Method string `json:"method,omitempty"`
 	Route  core.B `json:"route"`
-	Intent string `json:"intent,omitempty"` // generator's intent (statistics only; never used by the oracle)
+	Intent string `json:"intent,omitempty"`      // generator's intent (statistics only; never used by the oracle)
+	Split  int    `json:"group_split,omitempty"` // Flame level: >0 = the text is declared as Group(text[:Split]) { Route(text[Split:]) }; the registered route is the plain concatenation
 }
 
 var routerMethods = []string{"GET", "POST", "PUT", "DELETE", "PATCH", "OPTIONS", "HEAD", "CONNECT", "TRACE"}
@@ -239,6 +240,13 @@ func genRegCase(rng *rand.Rand) *regCase {
 		}
 		st.Route = core.B(txt)
 		if flame {
+			if rng.Intn(4) == 0 && len(txt) > 1 {
+				// declare it through a group, split anywhere (also between two slashes, inside a segment, at the very end)
+				st.Split = 1 + rng.Intn(len(txt))
+				if j := strings.Index(txt, "//"); j >= 0 && rng.Intn(2) == 0 {
+					st.Split = j + 1
+				}
+			}
 			st.Method = meths[rng.Intn(len(meths))]
 			if rng.Intn(25) == 0 {
 				st.Method = []string{"BREW", "", " GET", "GET ", "G\xc9T", "**", "GET,POST"}[rng.Intn(7)]
@@ -274,7 +282,7 @@ func runC08(r *core.Run) {
 	if hooksCompiled {
 		r.GateCounter("invariant-checks", int64(n))
 	}
-	for _, k := range []string{"accepted-kind:static", "accepted-kind:regex", "accepted-kind:placeholder", "accepted-kind:match-all", "accepted-kind:optional", "accepted-kind:root", "accepted-kind:empty-final", "accepted-kind:one-segment-optional", "mode:continue-after-refusal", "any-partial-registration"} {
+	for _, k := range []string{"accepted-kind:static", "accepted-kind:regex", "accepted-kind:placeholder", "accepted-kind:match-all", "accepted-kind:optional", "accepted-kind:root", "accepted-kind:empty-final", "accepted-kind:one-segment-optional", "mode:continue-after-refusal", "any-partial-registration", "declared-through-group"} {
 		r.GateCounter(k, 1)
 	}
 }
@@ -391,7 +399,24 @@ func judgeRegCase(w *core.W, c *regCase) {
 		// --- observe
 		var implErr error
 		var pan interface{}
-		if flame {
+		if flame && st.Split > 0 && st.Split <= len(txt) {
+			w.Count("declared-through-group")
+			func() {
+				defer func() {
+					if x := recover(); x != nil {
+						pan = x
+					}
+				}()
+				f.Group(txt[:st.Split], func() {
+					_, p2 := flameRegister(f, st.Method, txt[st.Split:], i, &hit, &seen)
+					if p2 != nil {
+						panic(p2)
+					}
+				})
+			}()
+			// a panic inside a group body leaves the group stack behind (the application would have died here), so
+			// after a refusal the instance is rebuilt from the accepted routes even in continue mode (below)
+		} else if flame {
 			_, pan = flameRegister(f, st.Method, txt, i, &hit, &seen)
 		} else {
 			var ir *route.Route
@@ -431,7 +456,7 @@ func judgeRegCase(w *core.W, c *regCase) {
 			if partial {
 				w.Count("any-partial-registration")
 			}
-			if c.Mode == "restart" {
+			if c.Mode == "restart" || (flame && st.Split > 0) {
 				if !rebuild() {
 					return
 				}
